@@ -759,7 +759,9 @@ class BaseSetIndexSortValues(Expr):
 
     @property
     def npartitions(self):
-        return self.operand("npartitions") or len(self._divisions()) - 1
+        # The requested count is only an upper bound: duplicate quantiles
+        # are dropped, so fewer partitions may actually be produced
+        return len(self._divisions()) - 1
 
 
 class SetIndex(BaseSetIndexSortValues):
